@@ -41,6 +41,10 @@ func NewGenConfig(r *rng.R, callbacks bool) GenConfig {
 	c.CloseNil = r.Chance(1, 6)
 	if callbacks {
 		c.Callbacks = 1 + r.Intn(3)
+		// An uncaught panic of a goroutine that happens to be run from inside a callback's JavaScript stack is
+		// delivered to that JavaScript caller; what the caller does with it is environment behaviour, outside
+		// the Go/GopherJS common subset. Not generated together with callbacks.
+		c.Panic = false
 	}
 	return c
 }
